@@ -15,6 +15,7 @@
     html_roundtrip_tree_partial xhtml_roundtrip_tree_partial html_roundtrip_tree_ns_partial
     xhtml_roundtrip_tree_ns_partial xhtml_roundtrip_cdata_partial cdata_end_not_recovered
     html_roundtrip_prolog_partial xhtml_roundtrip_prolog_partial pi_gt_not_recovered_html
+    xhtml_roundtrip_tree_qnames_partial
     rawtext_endtag_not_recovered comment_dashes_not_recovered attr_ws_not_recovered_xhtml
     markup_text_not_recovered raw_table_matches_reader normEol_id doctype_table_is_w3c
 -/
@@ -23,6 +24,7 @@ import Genshi.Lemmas.ReaderTree
 import Genshi.Lemmas.ReaderTreeNs
 import Genshi.Lemmas.ReaderXhtmlCdata
 import Genshi.Lemmas.ReaderPrologSim
+import Genshi.Lemmas.ReaderXmlView
 import Genshi.Lemmas.Output
 import Genshi.Lemmas.OutputFlatten
 import Genshi.Model.OutputPipeline
@@ -480,6 +482,36 @@ theorem xhtml_roundtrip_tree_ns_partial (cache : Bool) (u : Str) (hu : u ≠ xml
   have hf := filtered_forestU .xhtml true u hu ns hok hns
   rw [xhtml_render_roundtrip_partial _ _ _ hf (xhtmlOk_forestU ⟨true⟩ u huv false ns hh), xhtmlExpected_eq_assemble,
     piecesX_forestU]
+
+def exForestX0 : List Node :=
+  [.elem ⟨xhtmlNs, ['p']⟩ [(⟨xmlNs, ['l', 'a', 'n', 'g']⟩, ['e', 'n'])]
+    [.elem ⟨xhtmlNs, ['b', 'r']⟩ [] [], .leaf (.text ['<'] false)]]
+
+example : xmlForestOk true exForestX0 = true ∧ xhtmlForestOk exForestX0 = true ∧
+    forestUniformNs xhtmlNs exForestX0 = true := by decide
+
+/-- xhtml, through namespace resolution (expat's view): for a forest in namespace `u` (XHTML) inside
+    the hypotheses, additionally without character data outside elements and with resolvable names
+    (`xmlForestOk`: no colon in element and un-namespaced attribute names, no attribute called
+    `xmlns`), the tokens read back resolve to: every element in namespace `u`, `xml:`-attributes in
+    the XML namespace, the `xmlns` declaration consumed, self-closed elements as start + end. -/
+theorem xhtml_roundtrip_tree_qnames_partial (cache : Bool) (u : Str) (hu : u ≠ xmlNs) (huv : attrValOkB u = true)
+    (ns : List Node) (hok : okList ns = true) (hns : forestUniformNs u ns = true)
+    (hh : xhtmlForestOk ns = true) (hx : xmlForestOk true ns = true) :
+    (render .xhtml { strip := false, cache := cache, doctype := none, dropXmlDecl := true } (flattenList ns)).bind
+        (fun out => (tokens true out).bind (xmlView [])) =
+      some ((assemble (forestPiecesXU u false ns)).flatMap (xmlMapTok u)) := by
+  have h1 := xhtml_roundtrip_tree_ns_partial cache u hu huv ns hok hns hh
+  cases hr : render .xhtml { strip := false, cache := cache, doctype := none, dropXmlDecl := true } (flattenList ns) with
+  | none => simp [hr] at h1
+  | some out =>
+    simp only [hr, Option.bind_some] at h1 ⊢
+    rw [h1, Option.bind_some]
+    exact xmlView_forest u ns hx
+
+example : (assemble (forestPiecesXU xhtmlNs false exForestX0)).flatMap (xmlMapTok xhtmlNs) =
+    [.start ⟨xhtmlNs, ['p']⟩ [(⟨[], ['l', 'a', 'n', 'g']⟩, ['e', 'n']), (⟨xmlNsUri, ['l', 'a', 'n', 'g']⟩, ['e', 'n'])],
+     .start ⟨xhtmlNs, ['b', 'r']⟩ [], .end_ ⟨xhtmlNs, ['b', 'r']⟩, .text ['<'], .end_ ⟨xhtmlNs, ['p']⟩] := by decide
 
 def exForestX : List Node :=
   [.elem ⟨xhtmlNs, ['p']⟩ [] [.elem ⟨xhtmlNs, ['b', 'r']⟩ [] [], .leaf (.text ['<'] false)]]
